@@ -50,11 +50,48 @@ func expectedRuns(src []eng.Hook, ev string) []eng.Hook {
 	return out
 }
 
-// hookSource: the hooks the operation is to run, in the order Helm stored them
-func hookSource(op *eng.Op, so eng.StepObs, prev []eng.LedgerRow) []eng.Hook {
+// withDeclared: Helm's hook list (order, kind, name, events, weight as Helm parsed and stored them) with the
+// delete policies the CHART declared (matched by key and occurrence), so that what the oracle expects does not
+// depend on how Helm parsed the helm.sh/hook-delete-policy annotation
+func withDeclared(src, declared []eng.Hook) []eng.Hook {
+	out := make([]eng.Hook, len(src))
+	seen := map[string]int{}
+	for i, h := range src {
+		out[i] = h
+		n := seen[h.Res.Key()]
+		seen[h.Res.Key()] = n + 1
+		k := 0
+		for _, d := range declared {
+			if d.Res.Key() == h.Res.Key() {
+				if k == n {
+					out[i].Policies = d.Policies
+					break
+				}
+				k++
+			}
+		}
+	}
+	return out
+}
+
+func samePolicySet(a, b eng.Hook) bool {
+	x, y := effPolicies(a), effPolicies(b)
+	if len(x) != len(y) {
+		return false
+	}
+	for p := range x {
+		if !y[p] {
+			return false
+		}
+	}
+	return true
+}
+
+// hookSource: the hooks the operation is to run, in the order Helm stored them, with the declared policies
+func hookSource(op *eng.Op, so eng.StepObs, prev []eng.LedgerRow, decl func(chartID int) []eng.Hook) []eng.Hook {
 	switch op.Kind {
 	case "install", "upgrade":
-		return so.RHooks
+		return withDeclared(so.RHooks, op.Hooks)
 	case "rollback":
 		if len(prev) == 0 {
 			return nil
@@ -65,13 +102,14 @@ func hookSource(op *eng.Op, so eng.StepObs, prev []eng.LedgerRow) []eng.Hook {
 		}
 		for _, r := range prev {
 			if r.Rev == tv {
-				return r.Hooks
+				return withDeclared(r.Hooks, decl(r.ChartID))
 			}
 		}
 	case "uninstall":
 		// a release that is already uninstalled has nothing left to delete: only its history is removed
 		if len(prev) > 0 && prev[len(prev)-1].Status != "uninstalled" {
-			return prev[len(prev)-1].Hooks
+			last := prev[len(prev)-1]
+			return withDeclared(last.Hooks, decl(last.ChartID))
 		}
 	}
 	return nil
@@ -228,7 +266,7 @@ func (w *c12Walk) phase(src []eng.Hook, ev string) (ok bool, first, last int) {
 	return true, first, last
 }
 
-func c12OracleStep(i int, op *eng.Op, so eng.StepObs, reqs []sim.Req, prev []eng.LedgerRow, vs *[]hx.Violation) {
+func c12OracleStep(i int, op *eng.Op, so eng.StepObs, reqs []sim.Req, prev []eng.LedgerRow, decl func(int) []eng.Hook, vs *[]hx.Violation) {
 	add := func(sig, what string) {
 		*vs = append(*vs, hx.Violation{Sig: sig, What: fmt.Sprintf("step %d (%s): %s", i, op.Kind, what)})
 	}
@@ -260,6 +298,25 @@ func c12OracleStep(i int, op *eng.Op, so eng.StepObs, reqs []sim.Req, prev []eng
 		}
 		if len(so.RHooks) != len(op.Hooks) {
 			add("C12:hook-in-manifest", fmt.Sprintf("the chart has %d hook documents, the release %d hooks", len(op.Hooks), len(so.RHooks)))
+		}
+	}
+	// the delete policies Helm parsed / stored are the ones the chart declares (an executed hook without
+	// policies is stored with the default, before-hook-creation: compared as effective sets)
+	policyCheck := func(where string, parsed, declaredHooks []eng.Hook) {
+		want := withDeclared(parsed, declaredHooks)
+		for k := range parsed {
+			if !samePolicySet(parsed[k], want[k]) {
+				add("C12:delete-policy-lost", fmt.Sprintf("%s: hook %s declares delete policies %v, Helm has %v", where, parsed[k].Res.Key(), want[k].Policies, parsed[k].Policies))
+				return
+			}
+		}
+	}
+	if op.Kind == "install" || op.Kind == "upgrade" {
+		policyCheck("rendered chart", so.RHooks, op.Hooks)
+	}
+	for _, row := range so.Ledger {
+		if d := decl(row.ChartID); d != nil {
+			policyCheck(fmt.Sprintf("stored revision %d", row.Rev), row.Hooks, d)
 		}
 	}
 	for _, row := range so.Ledger {
@@ -318,7 +375,7 @@ func c12OracleStep(i int, op *eng.Op, so eng.StepObs, reqs []sim.Req, prev []eng
 		}
 		return
 	}
-	src := hookSource(op, so, prev)
+	src := hookSource(op, so, prev, decl)
 	ev := c12Events[op.Kind]
 	w := &c12Walk{reqs: hreqs, vs: vs, step: i}
 	if op.HFault != nil {
@@ -395,12 +452,22 @@ func (*c12) Oracle(ci, oi any) []hx.Violation {
 	h, o := ci.(eng.History), oi.(c12Obs)
 	var vs []hx.Violation
 	var prev []eng.LedgerRow
+	// the hooks each chart version declared (chart ids are unique per install/upgrade of a history)
+	declared := map[int][]eng.Hook{}
+	for _, s := range h.Steps {
+		if s.Op != nil && (s.Op.Kind == "install" || s.Op.Kind == "upgrade") {
+			if _, ok := declared[s.Op.ChartID]; !ok {
+				declared[s.Op.ChartID] = s.Op.Hooks
+			}
+		}
+	}
+	decl := func(id int) []eng.Hook { return declared[id] }
 	for i, s := range h.Steps {
 		if i >= len(o.Steps) || i >= len(o.Reqs) {
 			break
 		}
 		if s.Op != nil {
-			c12OracleStep(i, s.Op, o.Steps[i], o.Reqs[i], prev, &vs)
+			c12OracleStep(i, s.Op, o.Steps[i], o.Reqs[i], prev, decl, &vs)
 		}
 		prev = o.Steps[i].Ledger
 	}
